@@ -106,3 +106,75 @@ package pogreb
 //@   ensures value: forall j int :: 0 <= j && j < len(value) ==> data[6+len(key)+j] == value[j]
 //@   ensures crc: le32(contents(data), off(data)+len(data)-4) == crc(contents(data), off(data), len(data)-4)
 //@   flag lossless
+
+// ---- file.go --------------------------------------------------------------------------------
+
+// FILE-INV: the wrapper's cached size is the length of the file behind its open handle.
+//@ spec func fileInv(f *file) bool = f != nil && f.File != nil && fileOK(f.File) && hOpen[f.File] && f.size == fLen[fidOf[f.File]] && f.size >= 0
+
+//@ func (f *file) empty() bool [C02]
+//@   pure
+//@   ensures r <==> f.size == 512
+
+//@ func (f *file) append(data []byte) (off int64, err error) [C03,C04,C12,C18]
+//@   requires inv: fileInv(f)
+//@   ensures off: err == nil ==> off == old(f.size) && f.size == off + int64(len(data))
+//@   ensures inv: err == nil ==> fileInv(f)
+//@   ensures appendonly: err == nil ==> forall q int :: 0 <= q && q < off ==> fData[fidOf[f.File]][q] == old(fData[fidOf[f.File]])[q]
+//@   ensures written: err == nil ==> sameBytes(fData[fidOf[f.File]], int(off), contents(data), off(data), len(data))
+//@   ensures err: err != nil ==> isIOErr(err)
+//@   ensures handle: f.File == old(f.File)
+//@   modifies f.size, fData[fidOf[f.File]], fLen[fidOf[f.File]], fDur[fidOf[f.File]]
+
+//@ func (f *file) extend(size uint32) (off int64, err error) [C01,C02]
+//@   requires inv: fileInv(f)
+//@   ensures off: err == nil ==> off == old(f.size) && f.size == off + int64(size)
+//@   ensures inv: err == nil ==> fileInv(f)
+//@   ensures kept: err == nil ==> forall q int :: 0 <= q && q < off ==> fData[fidOf[f.File]][q] == old(fData[fidOf[f.File]])[q]
+//@   ensures zero: err == nil ==> forall q int :: off <= q && q < f.size ==> fData[fidOf[f.File]][q] == 0
+//@   ensures err: err != nil ==> isIOErr(err)
+//@   ensures handle: f.File == old(f.File)
+//@   modifies f.size, fData[fidOf[f.File]], fLen[fidOf[f.File]], fDur[fidOf[f.File]]
+
+//@ func (f *file) writeHeader() (err error) [C18]
+//@   requires inv: fileInv(f) && f.size == 0
+//@   ensures header: err == nil ==> fileInv(f) && f.size == 512 && isHeaderV2(fData[fidOf[f.File]], 0)
+//@   ensures err: err != nil ==> isIOErr(err)
+//@   modifies f.size, fData[fidOf[f.File]], fLen[fidOf[f.File]], fDur[fidOf[f.File]]
+
+//@ func (f *file) readHeader() (err error) [C18,C08]
+//@   requires inv: f != nil && f.File != nil && fileOK(f.File) && hPos[f.File] == 0
+//@   ensures sig: err == nil ==> fLen[fidOf[f.File]] >= 512 && isSignature(fData[fidOf[f.File]], 0) && hPos[f.File] == 512
+//@   ensures err: err != nil ==> isIOErr(err) || err == errCorrupted || err == io.EOF || err == io.ErrUnexpectedEOF
+//@   modifies hPos[f.File]
+
+// ---- segment.go: the validating reader of the documented record format -------------------------
+
+//@ spec func recK(m mem, o int) int = int(le16(m, o))
+//@ spec func recV(m mem, o int) int = int(le32(m, o+2) & 0x7fffffff)
+//@ spec func recDel(m mem, o int) bool = le32(m, o+2) & 0x80000000 != 0
+//@ spec func recSize(m mem, o int) int = 10 + recK(m, o) + recV(m, o)
+//@ spec func crcOK(m mem, o int) bool = le32(m, o+recSize(m, o)-4) == crc(m, o, recSize(m, o)-4)
+
+// the iterator reads the file of its segment through a reader positioned at it.offset
+//@ spec func segItInv(it *segmentIterator) bool = it != nil && it.f != nil && it.f.file != nil && it.f.file.File != nil && it.r != nil && len(it.buf) == 6 && arr(it.buf) != 0 && fidOf[it.r] == fidOf[it.f.file.File] && hPos[it.r] == int64(it.offset) && fLen[fidOf[it.r]] <= 0xffffffff && fLen[fidOf[it.r]] >= 0
+
+//@ func (it *segmentIterator) next() (rec record, err error) [C08,C18,C19,C16]
+//@   requires inv: segItInv(it)
+//@   ensures done: !isIOErr(err) && fLen[fidOf[it.r]] <= int64(old(it.offset)) ==> err == ErrIterationDone && it.offset == old(it.offset)
+//@   ensures shorthdr: !isIOErr(err) && int64(old(it.offset)) < fLen[fidOf[it.r]] && fLen[fidOf[it.r]] - int64(old(it.offset)) < 6 ==> err == io.ErrUnexpectedEOF
+//@   ensures shortrec: !isIOErr(err) && fLen[fidOf[it.r]] - int64(old(it.offset)) >= 6 && fLen[fidOf[it.r]] - int64(old(it.offset)) < recSize(fData[fidOf[it.r]], int(old(it.offset))) ==> (err == io.EOF || err == io.ErrUnexpectedEOF) && it.offset == old(it.offset)
+//@   ensures corrupted: !isIOErr(err) && fLen[fidOf[it.r]] - int64(old(it.offset)) >= recSize(fData[fidOf[it.r]], int(old(it.offset))) && !crcOK(fData[fidOf[it.r]], int(old(it.offset))) ==> err == errCorrupted && it.offset == old(it.offset)
+//@   ensures valid: !isIOErr(err) && fLen[fidOf[it.r]] - int64(old(it.offset)) >= recSize(fData[fidOf[it.r]], int(old(it.offset))) && crcOK(fData[fidOf[it.r]], int(old(it.offset))) ==> err == nil
+//@   ensures advance: err == nil ==> int(it.offset) == int(old(it.offset)) + recSize(fData[fidOf[it.r]], int(old(it.offset))) && segItInv(it)
+//@   ensures rec: err == nil ==> rec.offset == old(it.offset) && rec.segmentID == it.f.id && (rec.rtype == recordTypeDelete <==> recDel(fData[fidOf[it.r]], int(old(it.offset)))) && (rec.rtype == recordTypePut || rec.rtype == recordTypeDelete)
+//@   ensures recdata: err == nil ==> fresh(rec.data) && len(rec.data) == recSize(fData[fidOf[it.r]], int(old(it.offset))) && sameBytes(contents(rec.data), off(rec.data), fData[fidOf[it.r]], int(old(it.offset)), len(rec.data))
+//@   ensures reckey: err == nil ==> arr(rec.key) == arr(rec.data) && off(rec.key) == off(rec.data)+6 && len(rec.key) == recK(fData[fidOf[it.r]], int(old(it.offset)))
+//@   ensures recvalue: err == nil ==> arr(rec.value) == arr(rec.data) && off(rec.value) == off(rec.data)+6+len(rec.key) && len(rec.value) == recV(fData[fidOf[it.r]], int(old(it.offset)))
+//@   ensures onlyvalid: err == nil ==> crcOK(fData[fidOf[it.r]], int(old(it.offset))) && int64(old(it.offset)) + int64(recSize(fData[fidOf[it.r]], int(old(it.offset)))) <= fLen[fidOf[it.r]]
+//@   ensures errs: err != nil ==> isIOErr(err) || err == ErrIterationDone || err == io.EOF || err == io.ErrUnexpectedEOF || err == errCorrupted
+//@   at call ChecksumIEEE@1: assert bytes-read: sameBytes(contents(data), off(data), fData[fidOf[it.r]], int(old(it.offset)), len(data)) && len(data) == recSize(fData[fidOf[it.r]], int(old(it.offset)))
+//@   at call ChecksumIEEE@1: assert crc-field: le32(contents(data), off(data)+len(data)-4) == le32(fData[fidOf[it.r]], int(old(it.offset))+recSize(fData[fidOf[it.r]], int(old(it.offset)))-4)
+//@   at call ChecksumIEEE@1: assert crc-range: crc(contents(data), off(data), len(data)-4) == crc(fData[fidOf[it.r]], int(old(it.offset)), recSize(fData[fidOf[it.r]], int(old(it.offset)))-4)
+//@   at alloc@1: assert [C19] record-buffer: int64(size) <= fLen[fidOf[it.r]] - int64(old(it.offset))
+//@   modifies it.offset, hPos[it.r], it.buf[*]
